@@ -66,7 +66,7 @@ def may_pend(ip, what):
     """nondeterministic: does this poll answer Pending?  bounded by the path's budget"""
     p = ip.path
     budget = getattr(p, 'pending_budget', 0)
-    if budget <= 0:
+    if budget <= 0 or what in getattr(p, 'no_pend', ()):
         return False
     if p.choose(2, 'pending?' + what) == 1:
         p.pending_budget = budget - 1
